@@ -256,7 +256,7 @@ pub fn run(ctx: &Ctx) -> Report {
     }
     for l in 0..=9u16 {
         for s in sealings(1) {
-            for pre in [vec![Op::Elsewhere(0)], vec![Op::Elsewhere(1), alpha[6].clone()], vec![]] {
+            for pre in [vec![Op::Elsewhere(0)], vec![Op::Elsewhere(1), alpha[6].clone()], vec![], vec![Op::Typed(Kind::Software, vec![b'Z'; 40])], vec![Op::Raw(0xFF00, vec![0xFF; 23])], vec![Op::CustomLazy(21)]] {
                 let mut ops = pre.clone();
                 ops.push(Op::CustomLazy(l));
                 ops.extend(s.clone());
